@@ -1596,3 +1596,59 @@ func VH_C01_replication_conn_reuse() {
 	}
 	vReach("end")
 }
+
+//verif:check C19,C09,C12 sched=coop maxsteps=800000 onunwind=violation stubs=rt,timers,valuefile,abslog,snapfs onblock=violation reach=own-snapshot-being-written,installed-meanwhile,own-snapshot-finished,end desc="a follower writing its own snapshot (slow Persist, on the snapshot goroutine) while the leader installs a newer snapshot on it (real state loop, real handlers, real FSM loop): when the older own snapshot finally completes, the node's snapshot index does not move backwards, the snapshot it names is still on disk, the status report keeps its ordering relations, and the TakeSnapshot task completes" bounds="follower with 3 applied entries taking a snapshot at 3; InstallSnapshot for index 5 (abstract payload) arrives while the snapshot is being written; retain 1 snapshot"
+func VH_C19_snapshot_take_vs_install() {
+	r := vLoopNode(Follower)
+	a := vAbs(r.log)
+	for i := uint64(2); i <= 3; i++ {
+		e := &entry{index: i, term: 1, typ: entryUpdate, data: vBytes("payload", 1)}
+		a.ents = append(a.ents, vEncodeEntry(e))
+	}
+	a.flushed = 3
+	r.lastLogIndex, r.lastLogTerm = 3, 1
+	r.commitIndex, r.fsm.index, r.fsm.term = 3, 3, 1
+	r.fsm.config = r.configs.Committed
+	r.leader, r.votedFor, r.termVal.v2 = 2, 2, 2
+	vDiskInit(".term", 1, 2)
+	fsm := r.fsm.FSM.(*vFSM)
+	fsm.persistGate = make(chan struct{})
+	go r.fsm.runLoop()
+	user := takeSnapshot{task: newTask(), threshold: 0}
+	cfg5 := r.configs.Committed.clone()
+	ireq := &installSnapReq{req: req{1, 2}, lastIndex: 5, lastTerm: 1, lastConfig: cfg5, size: 0}
+	var w bytes.Buffer
+	if err := ireq.encode(&w); err != nil {
+		panic(err)
+	}
+	conn, _ := vMkConn(w.Bytes())
+	x := &rpc{req: &installSnapReq{}, conn: conn, done: make(chan struct{})}
+	step := 0
+	vSetIdleHook(func() {
+		switch step {
+		case 0:
+			vOffer(r.taskCh, user)
+		case 1:
+			vAssert(r.snapTakenCh != nil && !isClosed(user.Done()), "R-own-snapshot-in-progress")
+			vReach("own-snapshot-being-written")
+			vOffer(r.rpcCh, x)
+		case 2:
+			vAssert(isClosed(x.done) && x.resp.getResult() == success, "R-install-acknowledged")
+			vAssert(r.snaps.index == 5 && r.commitIndex == 5 && a.prev == 5, "R-newer-snapshot-installed")
+			vReach("installed-meanwhile")
+			close(fsm.persistGate)
+		case 3:
+			vReach("own-snapshot-finished")
+			vAssert(isClosed(user.Done()), "R-take-snapshot-task-completes")
+			vAssert(r.snaps.index >= 5, "R-snapshot-index-never-moves-backwards")
+			vAssert(vSLookup(vMetaFile(r.snaps.dir, r.snaps.index)) != nil && vSLookup(vSnapFile(r.snaps.dir, r.snaps.index)) != nil, "R-the-snapshot-the-node-names-is-on-disk")
+			inf := r.info()
+			vAssert(inf.FirstLogIndex-1 <= inf.SnapshotIndex && inf.SnapshotIndex <= inf.LastLogIndex, "R-report-first-1-le-snapshot-le-last")
+			r.doClose(ErrServerClosed)
+		}
+		step++
+	})
+	r.stateLoop()
+	vAssert(step >= 4, "script-completed")
+	vReach("end")
+}
